@@ -57,7 +57,7 @@ def run(ctx):
     rng = ctx.rng
     # block-level correspondence of the directory model the lookup / duplicate theorems are about
     from . import chaincorr
-    chaincorr.run(ctx, 8 if ctx.tier == "quick" else 200)
+    chaincorr.run(ctx, 30 if ctx.tier == "quick" else 400)
     # (b) leaf level
     lines = []
     for c in range(256):
